@@ -225,9 +225,19 @@ func (g *GateClock) Disarm() {
 	g.mu.Unlock()
 }
 
-// Pattern reports whether the caller kinds recorded since Arm contain a, then b, then a again
-// (e.g. 'e','u': an UpdatePeer read the clock between two clock reads of one entries pass).
-func (g *GateClock) Pattern(a, b byte) bool {
+// Mark records a harness-side event (e.g. 'r': the cleanup pass returned) in Seq.
+func (g *GateClock) Mark(k byte) {
+	g.mu.Lock()
+	if g.inspect {
+		g.Seq = append(g.Seq, k)
+	}
+	g.mu.Unlock()
+}
+
+// Between reports whether the kinds recorded since Arm contain a, then b, then c in this order
+// (e.g. 'e','u','r': an UpdatePeer read the clock after the entries pass started scanning and before
+// the pass returned).
+func (g *GateClock) Between(a, b, c byte) bool {
 	g.mu.Lock()
 	defer g.mu.Unlock()
 	st := 0
@@ -237,7 +247,7 @@ func (g *GateClock) Pattern(a, b byte) bool {
 			st = 1
 		case st == 1 && k == b:
 			st = 2
-		case st == 2 && k == a:
+		case st == 2 && k == c:
 			return true
 		}
 	}
